@@ -28,7 +28,7 @@ var confirmedCounts = map[string]map[string][2]int{ // rule -> prop -> {default,
 	"R19": {"C02": {7, 7}},
 	"R20": {"C03": {2, 2}},
 	"R21": {"C16": {0, 4}},
-	"R22": {"C16": {0, 16}},
+	"R22": {"C16": {0, 18}},
 	"R23": {"C14": {0, 14}},
 	"R24": {"C05": {4, 4}, "C06": {5, 5}, "C13": {2, 2}, "C15": {1, 3}},
 	"R25": {"C05": {6, 6}, "C06": {18, 18}, "C09": {17, 17}, "C13": {9, 9}, "C15": {1, 5}},
